@@ -42,10 +42,10 @@ fn now_s() -> u64 {
 }
 
 /// Reads case lines from stdin, writes one result line per case to stdout.  A watchdog thread
-/// answers `HANG` for a case that runs longer than VERIF_CASE_WALL_S (default 300) seconds of real
+/// answers `HANG` for a case that runs longer than VERIF_CASE_WALL_S (default 150) seconds of real
 /// time and ends the process (exit code 86); the caller re-runs the remaining cases.
 pub fn for_each_case(mut f: impl FnMut(&[&str]) -> String) {
-    let limit: u64 = std::env::var("VERIF_CASE_WALL_S").ok().and_then(|v| v.parse().ok()).unwrap_or(300);
+    let limit: u64 = std::env::var("VERIF_CASE_WALL_S").ok().and_then(|v| v.parse().ok()).unwrap_or(150);
     std::thread::spawn(move || loop {
         std::thread::sleep(std::time::Duration::from_millis(500));
         let st = CASE_STARTED.load(Ordering::SeqCst);
